@@ -84,6 +84,27 @@ theorem checkRequired_spec (attrs : List Attr) (env : Scope) :
     have := h a ha hk fld hf hne
     simpa using this
 
+/-- (4b) "and never otherwise": `:required` asks whether a name is BOUND, never what it is bound to - two environments that bind the same
+    names give the same verdict, whatever the values (null, empty string, zero, false included) -/
+theorem required_ignores_values (attrs : List Attr) (env env' : Scope)
+    (h : ∀ k, (Scope.get env k).isSome = (Scope.get env' k).isSome) : checkRequired attrs env = checkRequired attrs env' := by
+  have hp : (fun f => (Scope.get env f).isNone) = (fun f => (Scope.get env' f).isNone) := by
+    funext f
+    have := h f
+    cases h1 : Scope.get env f <;> cases h2 : Scope.get env' f <;> simp_all
+  simp only [checkRequired, hp]
+
+/-- … in particular a name bound to null is provided exactly like the same name bound to any other value -/
+theorem required_name_bound_to_null_is_provided (attrs : List Attr) (env : Scope) (k : Str) (v : Val) :
+    checkRequired attrs (Scope.set env k .nil) = checkRequired attrs (Scope.set env k v) := by
+  apply required_ignores_values
+  intro k'
+  simp only [Scope.get_set]
+  split <;> rfl
+
+example : checkRequired [(S ":required", S "title, sub")] [(S "title", .str (S "T")), (S "sub", .nil)] = none := by decide
+example : checkRequired [(S ":required", S "title, sub")] [(S "title", .str (S "T"))] = some (S "sub") := by decide
+
 /-- (5) a registered shorthand tag IS the equivalent `<template include>`: same attributes plus `include=file`, same children -/
 theorem shorthand_is_include (comps : List (Str × Str)) (tag file : Str) (attrs : List Attr) (kids : List Node)
     (h : comps.lookup tag = some file) :
